@@ -30,9 +30,33 @@ def extract_automaton(f):
     and a store OUT[i] = <state>.  Returns dict or raises ValueError."""
     loops = [n for n in ast.walk(f.node) if isinstance(n, ast.For) and enclosing_func(n) is f.node]
     for loop in loops:
-        if not isinstance(loop.target, ast.Name):
+        elem = {}
+        whole = None      # the loop runs over whole arrays (no slices), from the first element
+        if isinstance(loop.target, ast.Name):
+            iv = loop.target.id
+        elif isinstance(loop.target, ast.Tuple) and len(loop.target.elts) == 2 and isinstance(loop.target.elts[0], ast.Name) \
+                and isinstance(loop.iter, ast.Call) and isinstance(loop.iter.func, ast.Name) and loop.iter.func.id == "enumerate" \
+                and len(loop.iter.args) == 1 and not loop.iter.keywords:
+            # for i, x in enumerate(P)   /   for i, (a, b) in enumerate(zip(P, Q))
+            iv = loop.target.elts[0].id
+            tv, seq = loop.target.elts[1], loop.iter.args[0]
+            if isinstance(tv, ast.Name) and isinstance(seq, ast.Name):
+                elem[tv.id] = seq.id
+                whole = True
+            elif isinstance(tv, (ast.Tuple, ast.List)) and isinstance(seq, ast.Call) and isinstance(seq.func, ast.Name) and seq.func.id == "zip" \
+                    and len(seq.args) == len(tv.elts) and all(isinstance(t, ast.Name) for t in tv.elts) \
+                    and all(isinstance(a, ast.Name) or (isinstance(a, ast.Subscript) and isinstance(a.slice, ast.Slice) and isinstance(a.value, ast.Name))
+                            for a in seq.args):
+                whole = True
+                for t, a in zip(tv.elts, seq.args):
+                    if isinstance(a, ast.Subscript):
+                        whole = False            # a slice of the input: not every sample from the first
+                        a = a.value
+                    elem[t.id] = a.id
+            else:
+                continue
+        else:
             continue
-        iv = loop.target.id
         stores = [s for s in ast.walk(loop) if isinstance(s, ast.Assign) and isinstance(s.targets[0], ast.Subscript)
                   and isinstance(s.targets[0].slice, ast.Name) and s.targets[0].slice.id == iv]
         if len(stores) != 1:
@@ -46,15 +70,20 @@ def extract_automaton(f):
                 states.add(s.targets[0].id)
         if len(states) != 1:
             continue
-        return {"loop": loop, "ivar": iv, "state": next(iter(states)), "out": out}
+        return {"loop": loop, "ivar": iv, "state": next(iter(states)), "out": out, "elem": elem, "whole": whole}
     raise ValueError("state-machine loop not recognised")
 
 
-def eval_body(body, env, inputs, ivar, out_holder):
-    """Interpret loop body statements with booleans."""
+def eval_body(body, env, inputs, ivar, out_holder, elem=None):
+    """Interpret loop body statements with booleans.  elem: loop variables that hold the current
+    element of an input array (name -> array name)."""
+    elem = elem or {}
+
     def ev(e):
         if isinstance(e, ast.Constant):
             return bool(e.value)
+        if isinstance(e, ast.Name) and e.id in elem and e.id not in env:
+            return inputs[elem[e.id]]
         if isinstance(e, ast.Name):
             return env[e.id]
         if isinstance(e, ast.Subscript) and isinstance(e.value, ast.Name) and isinstance(e.slice, ast.Name) and e.slice.id == ivar:
@@ -75,7 +104,7 @@ def eval_body(body, env, inputs, ivar, out_holder):
 
     for st in body:
         if isinstance(st, ast.If):
-            eval_body(st.body if ev(st.test) else st.orelse, env, inputs, ivar, out_holder)
+            eval_body(st.body if ev(st.test) else st.orelse, env, inputs, ivar, out_holder, elem)
         elif isinstance(st, ast.Assign) and isinstance(st.targets[0], ast.Name):
             env[st.targets[0].id] = ev(st.value)
         elif isinstance(st, ast.Assign) and isinstance(st.targets[0], ast.Subscript):
@@ -123,7 +152,7 @@ def run(ctx, chk, tier="quick"):
             env = {state: s0}
             outs = []
             try:
-                eval_body(loop.body, env, {pj: jump, pr: raining}, iv, outs)
+                eval_body(loop.body, env, {pj: jump, pr: raining}, iv, outs, au.get("elem"))
             except (ValueError, KeyError) as exc:
                 chk.indeterminate("C04.O1", where_of(f, loop), "loop body not interpretable: %s" % exc)
                 break
@@ -140,6 +169,10 @@ def run(ctx, chk, tier="quick"):
         it = loop.iter
         rng_ok = isinstance(it, ast.Call) and isinstance(it.func, ast.Name) and it.func.id == "range" and len(it.args) == 1 \
             and ast.unparse(it.args[0]).startswith("len(")
+        if au.get("whole") and set(au.get("elem", {}).values()) <= {pj, pr}:
+            rng_ok = True            # enumerate over the whole input arrays, from the first element
+        elif au.get("whole") is False:
+            rng_ok = False
         chk.ob("C04.O1", rng_ok, where_of(f, loop), "loop over %s" % ast.unparse(it), "every sample, in time order (range(len(...)))",
                key="get_mystery_jump_mask|loop-range")
         # returns the flag array that is stored into
